@@ -53,6 +53,8 @@ RxnSmall == {[r |-> <<Sp(A, 4)>>, p |-> <<Sp(AB, 8)>>, t |-> <<>>],
              [r |-> <<Sp(A, 8), Sp(B, 8)>>, p |-> <<Sp(AB, 4), Sp(B, 1)>>, t |-> <<Sp(D, 8), Sp(A, 1)>>]}
 MCProbeNames == {Z}
 MCProbeBlocks == {EmptyFn, (GT :> 7), (GT :> 7) @@ (GP :> 8)}
+MCEditCoefs == {1, 6}
+MCEditNames == {AB, B}
 TinyRxns == {[r |-> <<Sp(A, 4)>>, p |-> <<Sp(AB, 8)>>, t |-> <<Sp(D, 4)>>]}
 
 \* ---- generated cases (S->C): abstract results computed here -----------------
